@@ -135,3 +135,33 @@ Proof.
     - intros k Hk. rewrite LJ in Hk. assert (Hin : In k [0; 1; 2; 3; 4]) by (cbn; lia). specialize (H2 k Hin). lia. }
   split; [apply V; reflexivity|]. split; [apply V; reflexivity|]. vm_compute. reflexivity.
 Qed.
+
+(* rs_direct_interpolation_pass1/2 and rs_classical_interpolation_pass1/2, UNBOUNDED: the Python callers allocate
+   P.indices / P.data with nnz = P.indptr[n] entries, where P.indptr comes from pass 1.  For every number of rows, every
+   strength pattern and splitting: the entries pass 2 produces for row i (kernel models of C11, tied bit for bit to the
+   kernels there) fill exactly the slice [Bp[i], Bp[i+1]) that pass 1 reserved, and all rows together fill exactly
+   the nnz entries -- so the write position `nnz` of pass 2 never passes the end of the arrays. *)
+Require Import PV.Model.Interp PV.Proofs.InterpSlots.
+Theorem C17_interpolation_pass2_fills_reserved_slots :
+  forall (F : Type) (o : Ops F) (Ap Aj : list Z) (Ax : list F) (Sp Sj : list Z) (Sx : list F) (spl : list Z) (N : nat),
+  let Bp := interp_pass1 (Z.of_nat N) Sp Sj spl in
+  (forall i, 0 <= i < Z.of_nat N ->
+     nthZ Bp i 0 + Z.of_nat (length (direct_row o Ap Aj Ax Sp Sj Sx spl i)) = nthZ Bp (i + 1) 0) /\
+  (forall eps15 modified i, 0 <= i < Z.of_nat N ->
+     nthZ Bp i 0 + Z.of_nat (length (classical_row o Ap Aj Ax Sp Sj Sx spl eps15 modified i)) = nthZ Bp (i + 1) 0) /\
+  Z.of_nat (length (concat (direct_rows o (Z.of_nat N) Ap Aj Ax Sp Sj Sx spl))) = nthZ Bp (Z.of_nat N) 0 /\
+  (forall eps15 modified,
+     Z.of_nat (length (concat (classical_rows o (Z.of_nat N) Ap Aj Ax Sp Sj Sx spl eps15 modified))) = nthZ Bp (Z.of_nat N) 0).
+Proof.
+  intros F o Ap Aj Ax Sp Sj Sx spl N Bp. split; [|split; [|split]].
+  - intros i Hi. exact (direct_fills_reserved o Ap Aj Ax Sp Sj Sx spl N i Hi).
+  - intros e m i Hi. exact (classical_fills_reserved o Ap Aj Ax Sp Sj Sx spl N e m i Hi).
+  - exact (total_rows Sp Sj spl _ N (direct_row_slots o Ap Aj Ax Sp Sj Sx spl)).
+  - intros e m. exact (total_rows Sp Sj spl _ N (classical_row_slots o Ap Aj Ax Sp Sj Sx spl e m)).
+Qed.
+Print Assumptions C17_interpolation_pass2_fills_reserved_slots.
+Example C17_interpolation_slots_example :
+  let Sp := [0; 2; 3; 5] in let Sj := [1; 2; 0; 0; 1] in let spl := [1; 0; 0] in
+  interp_pass1 3 Sp Sj spl = [0; 1; 2; 3] /\
+  map (@length _) (direct_rows opsQ 3 Sp Sj [2#1; -1#1; -1#1; 2#1; -1#1] Sp Sj [2#1; -1#1; -1#1; -1#1; 2#1] spl) = [1; 1; 1]%nat.
+Proof. split; vm_compute; reflexivity. Qed.
